@@ -1,60 +1,98 @@
 (* C14 - SimpleLoop feeds exact time deltas and stops cleanly on Quit.
-   Statement file: theorems only, each closed by [exact]. *)
+   Statement file: theorems only, each closed by [exact].
+   Second generation of the Loop family: the listener callbacks
+   (on_world_load, on_switch_in, on_switch_out, on_quit) can themselves raise
+   Quit, call quit_loop / switch, raise SwitchWorld or another exception, at
+   any nesting depth (Loop/RBus.v, RModel.v, R14Model.v, R14Proofs.v). *)
 From Coq Require Import ZArith List Bool.
-From Desper Require Import Lib.Alist Loop.Model Loop.ModelFacts Loop.C14Model Loop.C14Proofs.
+From Desper Require Import Lib.Alist Loop.RBus Loop.RModel Loop.RFacts Loop.R14Model
+     Loop.R14Proofs.
 Import ListNotations.
 Open Scope Z_scope.
 
 (* For every case (any number of handles and processors, any sequence of
    loop.switch / start() operations, any clock readings, any frame scripts
    issued from any processor position by a processor, an event callback or a
-   coroutine - including the call patterns of known finding K5) whose
-   observed logs the model of desper/loop.py accepts, every start() satisfies
-   the checker of Loop/C14Model.v:
+   coroutine, any one-shot reactions of the load-time / switch-time / quit
+   callbacks) that contains no switch request made by a callback while the
+   loop is carrying out a switch (known finding K10, which leaves the current
+   world muted), and whose observed logs the model of desper/loop.py accepts,
+   every start() satisfies the checker of Loop/R14Model.v:
    - the first iteration after each start gets dt = 0, every later one exactly
      (this reading - previous reading of the time function), also when the
-     world was switched in between (the clock is never reset by a switch);
+     world was switched in between;
    - in an iteration the processors of the loop's current world are called in
      order, each once, all with that dt, until one of them acts;
-   - Quit (raised by a script, by the time function, or by quit_loop after
-     on_quit was delivered to the current world) makes start() return with
-     running = false and current world / handle as they were when Quit was
-     raised; any other exception reaches the caller;
+   - Quit - raised by a script, by the time function, by quit_loop after on_quit
+     was delivered to the current world, or by any callback, also while the
+     loop is entering a world - makes start() return with running = false and
+     current world / handle as they were when Quit was raised; any other
+     exception reaches the caller (a SwitchWorld either is honoured by the
+     loop or reaches the caller: which one is C13's business);
    - the next start() begins again with dt = 0, however the previous ended. *)
 Theorem C14_exact_dt :
   forall c : C14_case, wf_b c = true -> known14_b c = false ->
                        accepts c = true -> holds14 c.
-Proof. intros c W _ A. exact (accepts_holds14 c W A). Qed.
+Proof. intros c W K A. exact (accepts_holds14 c W K A). Qed.
 Print Assumptions C14_exact_dt.
 
 (* what the checker means on a raw log: the deltas handed to the first
-   processor, one per iteration, add up to last reading - first reading: no
-   time is lost or counted twice, whatever switches happened in between *)
+   processor, one per iteration, add up to last reading - first reading *)
 Theorem C14_deltas_telescope :
   forall nps l, nps_ok nps -> start14 nps l = true ->
     sum_dt0 l = match readings l with [] => 0 | t0 :: rs => last rs t0 - t0 end.
 Proof. intros nps l H1 H2. exact (start14_telescopes nps l H1 H2). Qed.
 Print Assumptions C14_deltas_telescope.
 
-(* non-vacuity: a start ended by another exception, then a restart across a
-   world switch that quits through quit_loop *)
 Definition fr t a := {| f_t := t; f_pokes := []; f_pos := 0%nat; f_org := OProc; f_act := a |}.
+Definition top0 : op * list entry :=
+  (OTop 0 false false [], [ELoad 0 1; EEv 1 (VLoad 0 1); ETopDone 1 0]).
+
+(* non-vacuity: a start ended by another exception; a restart across a world
+   switch during which the on_world_load callback of the entered world raises
+   Quit (the loop is in its except clause); a third start that switches again *)
 Definition ex_ok : C14_case :=
   {| c_nps := [1%nat; 1%nat];
      c_ops :=
-       [ (OTop 0 false false, [ELoad 0 1; EEv 1 (VLoad 0 1); ETopDone 1 0]);
-         (OStart [fr 8 AOther] EndQuit,
-          [EClock 8 1 0; EProc 1 0%nat 0; EAct OProc AOther; EEnd RaisedOther 1 0]);
-         (OStart [fr 24 ANormal; fr 29 (ASwitch 1 false false true);
-                  fr 32 (AQuitLoop QCurrent)] EndQuit,
+       [ top0;
+         (OStart [fr 8 AOther] EndQuit [],
+          [EClock 8 1 0; EProc 1 0%nat 0; EAct OProc AOther 1 0; EEnd RaisedOther 1 0]);
+         (OStart [fr 24 ANormal; fr 29 (ASwitch 1 false false true); fr 32 ANormal] EndQuit
+                 [(KLoad, AQuit)],
           [EClock 24 1 0; EProc 1 0%nat 0;
-           EClock 29 1 0; EProc 1 0%nat 5; EAct OProc (ASwitch 1 false false true);
-           ELoad 1 2; EEv 1 (VOut 1 2); EEv 2 (VLoad 1 2); EEv 2 (VIn 1 2);
-           EClock 32 2 1; EProc 2 0%nat 3; EAct OProc (AQuitLoop QCurrent); EEv 2 VQuit;
-           EEnd (Returned false) 2 1]) ] |}.
+           EClock 29 1 0; EProc 1 0%nat 5; EAct OProc (ASwitch 1 false false true) 1 0;
+           ELoad 1 2; EEv 1 (VOut 1 2); EEv 2 (VLoad 1 2);
+           EAct (OCallback KLoad true) AQuit 2 1; EEnd (Returned false) 2 1]);
+         (OStart [fr 40 ANormal; fr 41 (ASwitch 0 false false true);
+                  fr 44 (AQuitLoop QCurrent)] EndQuit [],
+          [EClock 40 2 1; EProc 2 0%nat 0;
+           EClock 41 2 1; EProc 2 0%nat 1; EAct OProc (ASwitch 0 false false true) 2 1;
+           EEv 2 (VOut 2 1); EEv 1 (VIn 2 1);
+           EClock 44 1 0; EProc 1 0%nat 3; EAct OProc (AQuitLoop QCurrent) 1 0; EEv 1 VQuit;
+           EEnd (Returned false) 1 0]) ] |}.
 Example C14_nonvacuous :
   wf_b ex_ok = true /\ known14_b ex_ok = false /\ accepts ex_ok = true /\ holds14_b ex_ok = true.
 Proof. vm_compute. auto. Qed.
+
+(* known finding K10 (see Props/C13.v): on_switch_in calls switch(): start()
+   dies with SwitchWorld and the current world (2) has muted itself; at the
+   next start quit_loop's on_quit is held instead of delivered *)
+Definition k10_witness : C14_case :=
+  {| c_nps := [1%nat; 1%nat; 1%nat];
+     c_ops :=
+       [ top0;
+         (OStart [fr 0 (ASwitch 1 false false true); fr 8 ANormal] EndQuit
+                 [(KIn, ASwitch 2 false false false)],
+          [EClock 0 1 0; EProc 1 0%nat 0; EAct OProc (ASwitch 1 false false true) 1 0;
+           ELoad 1 2; EEv 1 (VOut 1 2); EEv 2 (VLoad 1 2); EEv 2 (VIn 1 2);
+           EAct (OCallback KIn true) (ASwitch 2 false false false) 2 1;
+           ELoad 2 3; EEv 2 (VOut 2 3); EEnd RaisedSwitch 2 1]);
+         (OStart [fr 16 (AQuitLoop QDefault)] EndQuit [],
+          [EClock 16 2 1; EProc 2 0%nat 0; EAct OProc (AQuitLoop QDefault) 2 1;
+           EEnd (Returned false) 2 1]) ] |}.
+Theorem C14_switch_from_switch_in_refuted :
+  exists c, wf_b c = true /\ known14_b c = true /\ accepts c = true /\ holds14_b c = false.
+Proof. exists k10_witness. vm_compute. auto. Qed.
 
 (* logs that violate the property are rejected by the checker: a stale
    timestamp after a start that ended by an exception (first dt = 16) ... *)
@@ -65,17 +103,24 @@ Proof. vm_compute. reflexivity. Qed.
 (* ... time lost across a switch (the clock restarted: dt = 0 instead of 3) ... *)
 Example C14_time_lost_across_switch_rejected :
   start14 [1%nat; 1%nat]
-    [EClock 29 1 0; EProc 1 0%nat 0; EAct OProc (ARaiseSW 1 false false);
+    [EClock 29 1 0; EProc 1 0%nat 0; EAct OProc (ARaiseSW 1 false false) 1 0;
      ELoad 1 2; EEv 2 (VLoad 1 2);
      EClock 32 2 1; EProc 2 0%nat 0; EClockEnd EndQuit 2 1; EEnd (Returned false) 2 1] = false.
 Proof. vm_compute. reflexivity. Qed.
-(* ... running left true after Quit, and a processor called after the one
-   that quit *)
+(* ... running left true after Quit, a processor called after the one that
+   quit, Quit raised by a callback during a switch not ending the loop *)
 Example C14_running_true_rejected :
-  start14 [1%nat] [EClock 8 1 0; EProc 1 0%nat 0; EAct OProc AQuit; EEnd (Returned true) 1 0]
+  start14 [1%nat] [EClock 8 1 0; EProc 1 0%nat 0; EAct OProc AQuit 1 0; EEnd (Returned true) 1 0]
   = false.
 Proof. vm_compute. reflexivity. Qed.
 Example C14_frame_not_abandoned_rejected :
-  start14 [2%nat] [EClock 8 1 0; EProc 1 0%nat 0; EAct OProc AQuit; EProc 1 1%nat 0;
+  start14 [2%nat] [EClock 8 1 0; EProc 1 0%nat 0; EAct OProc AQuit 1 0; EProc 1 1%nat 0;
                    EEnd (Returned false) 1 0] = false.
+Proof. vm_compute. reflexivity. Qed.
+Example C14_callback_quit_ignored_rejected :
+  start14 [1%nat; 1%nat]
+    [EClock 29 1 0; EProc 1 0%nat 0; EAct OProc (ASwitch 1 false false true) 1 0;
+     ELoad 1 2; EEv 1 (VOut 1 2); EEv 2 (VLoad 1 2); EAct (OCallback KLoad true) AQuit 2 1;
+     EEv 2 (VIn 1 2); EClock 32 2 1; EProc 2 0%nat 3; EClockEnd EndQuit 2 1;
+     EEnd (Returned false) 2 1] = false.
 Proof. vm_compute. reflexivity. Qed.
